@@ -39,7 +39,19 @@ def _c08(tier, seed):
     return ps + families.canaries_default(ps)
 
 
+def _c09(tier, seed):
+    ps = families.c09(tier, seed)
+    return ps + families.canaries_deref(ps)
+
+
 PROPS = {
+    "C09": {
+        "family": _c09,
+        "bounds": {"quick": "structs named/tuple n<=3 x every Deref marker position x every DerefMut marker position (or none); reference-typed designated fields; enums 1-3 variants of 1-3 fields with differing marker positions, with/without DerefMut; all fields share one type so only position distinguishes them",
+                   "thorough": "n<=4; +60 sampled enums"},
+        "trusted": [], "assumptions": ["address identity is decided by Kani on the u8 twin; Verus decides value + frame generically in the field type"],
+        "explanation": "generated deref/deref_mut verified verbatim: value of the designated field, frame of deref_mut; Kani: pointer identity and write-through frame",
+    },
     "C08": {
         "family": _c08,
         "bounds": {"quick": "16 literal kinds x 2 spellings x position in 1-3 field structs; 3-literal neighbours; type-level expressions x 3 spellings; enums 1-4 variants x every marker position x 2 kind rotations; unions 1-3 fields x marker x with/without expression; with/without new",
